@@ -351,7 +351,7 @@ func init() {
 	fw.Register(&fw.Prop{
 		ID:    "C18",
 		Level: "exploration",
-		Rule: "archives are written by archive/tar from random headers: formats USTAR / PAX / GNU / auto, 28 member names (long, UTF-8, names that begin like higher-priority formats (PK\\x03\\x04, %PDF-, MZ, ELF, GIF89a) and like lower-priority ones (BZh, xar!, wOFF, gzip, Rar!, fLaC, ID3, BM); names containing /gpkg-1 followed by further characters, names that contain such signatures away from the start), member data that begins with another format's signature (PDF, zip, PNG, JSON, HTML, ELF …: it sits at offset 512), modes, uid/gid up to and beyond 2^21 (base-256 fields), sizes 0 … 2^40 (base-256 above 8 GiB), mtimes incl. > 2^33, before 1970 and sub-second (PAX), negative ids (GNU base-256 with leading 0xff), member names of 99 … 257 and 500 … 1034 bytes, all type flags with link names and device numbers, PAX records, one or two members; each is detected at limits {0, 3072, 512, len, len+1}; then for the first block EVERY position outside 148-155 x EVERY other byte value (504 x 255 = 128 520 corruptions, exhaustive per archive) must not be reported as tar; a sample of corruptions is repeated under read limits that cut inside the first block (1 … 512). " +
+		Rule: "archives are written by archive/tar from random headers: formats USTAR / PAX / GNU / auto, 28 member names (long, UTF-8, names that begin like higher-priority formats (PK\\x03\\x04, %PDF-, MZ, ELF, GIF89a) and like lower-priority ones (BZh, xar!, wOFF, gzip, Rar!, fLaC, ID3, BM); names containing /gpkg-1 followed by further characters, names that contain such signatures away from the start), member data that begins with another format's signature (PDF, zip, PNG, JSON, HTML, ELF …: it sits at offset 512), modes, uid/gid up to and beyond 2^21 (base-256 fields), sizes 0 … 2^40 (base-256 above 8 GiB), mtimes incl. > 2^33, before 1970 and sub-second (PAX), negative ids (GNU base-256 with leading 0xff), member names of 99 … 257 and 500 … 1034 bytes, all type flags with link names and device numbers, PAX records, one or two members; each is detected at limits {0, 3072, 512, len, len+1}; then for the first block EVERY position outside 148-155 x EVERY other byte value (504 x 255 = 128 520 corruptions, exhaustive per archive) must not be reported as tar; a sample of corruptions is repeated under read limits that cut inside the first block (1 … 512).  A third of the header-only first members (directory, links, devices, fifo) record a non-zero size and are followed at once by a regular member with data; one archive in 40 is detected through DetectFile on a named pipe that a writer goroutine fills and closes." +
 			"non-trivial = an archive that is reported as tar and was put through the exhaustive corruption sweep (counted once per archive, archives are distinct by construction); plus distinct (format, type flag, has high bytes) classes.",
 		Assumptions: []string{
 			"archive/tar is the conforming writer; header combinations it refuses are not archives",
